@@ -120,8 +120,14 @@ def oracle_warmup(case: dict) -> Outcome:
         B.step()
         if any(mask):
             steps += 1
+        # Adam variants: Shampoo evaluates both bias corrections as float32 scalars; their relative error (t+2)*2^-23 / bc enters the step
+        extra = 0.0
+        if k in ("adam", "adamw") and steps >= 1:
+            tt = steps
+            u32 = 2.0**-24
+            extra = 4 * (tt + 2) * 2 * u32 * (0.5 / (1 - c["beta2"] ** tt) + (c["beta1"] ** tt / (1 - c["beta1"] ** tt) if c["beta1"] > 0 else 0.0))
         for i, (a, b) in enumerate(zip(pa, pb)):
-            cum[i] += float((b.detach().double() - prev[i].double()).norm())
+            cum[i] += (1.0 + extra / tau) * float((b.detach().double() - prev[i].double()).norm())
             dev = float((a.detach().double() - b.detach().double()).norm())
             # each side rounds the parameter after every update: an absolute floor of a few ulps of w per step, on top of tau * path length
             scale = cum[i] + (4 * eps_d / tau) * (t + 1) * float(b.detach().double().norm())
